@@ -56,7 +56,29 @@ var floatSpellings = []string{"0.0", "0.5", "1.0", "1.5", "2.5", "3.0", "00.25",
 
 func GenFloatLit(r *rand.Rand) *Literal {
 	var text string
-	if r.Intn(3) == 0 {
+	if r.Intn(8) == 0 {
+		// long plain notation: many digits before the dot, many zeros behind it, long digit runs, with or without an exponent
+		digits := func(n int) string {
+			var b strings.Builder
+			for i := 0; i < n; i++ {
+				b.WriteByte(byte('0' + r.Intn(10)))
+			}
+			return b.String()
+		}
+		switch r.Intn(4) {
+		case 0:
+			text = "0." + strings.Repeat("0", r.Intn(70)) + digits(1+r.Intn(18))
+		case 1:
+			text = digits(1+r.Intn(3)) + "." + strings.Repeat("0", r.Intn(40)) + digits(1+r.Intn(25))
+		case 2:
+			text = digits(1+r.Intn(40)) + "." + digits(1+r.Intn(3))
+		default:
+			text = digits(1+r.Intn(20)) + "." + digits(1+r.Intn(30)) + "e" + []string{"", "+", "-"}[r.Intn(3)] + strconv.Itoa(r.Intn(300))
+		}
+		if v, err := strconv.ParseFloat(text, 64); err != nil || math.IsInf(v, 0) {
+			text = "0." + strings.Repeat("0", 22+r.Intn(20)) + "1"
+		}
+	} else if r.Intn(3) == 0 {
 		// random spelling
 		text = strconv.Itoa(r.Intn(1000))
 		if r.Intn(2) == 0 {
